@@ -603,6 +603,51 @@ func TestC02Exhaustive(t *testing.T) {
 	ev.Exhaustive(fmt.Sprintf("all single faults (every bit, every truncation, drop/dup/swap/replay/cut of every frame, forged frames of 10 lengths x 2 end flags at every position) over %d transcripts x 3 receivers", nT))
 }
 
+// TestC02BigFrames: transcripts whose frames sit at the 1 MiB frame limit (where the sender has to split a
+// frame to fit the protection overhead), final and non-final, with the unedited control and a sample of faults.
+func TestC02BigFrames(t *testing.T) {
+	const MiB = 1 << 20
+	bad := 0
+	for ti, frames := range [][]int{{MiB - 20, 9}, {MiB, 5}, {7, MiB - 16}, {MiB - 33, MiB - 15, 3}} {
+		for _, typed := range []bool{false, true} {
+			tr := Transcript{Prefix: ti % 4, Dir: ti % 2, Typed: typed, Salt: uint32(900 + ti), Msgs: []TMsg{{Frames: []int{4}}, {Frames: frames}, {Frames: []int{6}}}}
+			b, err := build(tr)
+			if err != nil {
+				kit.Violation("C02", "cannot build/verify transcript with the reference codec: "+err.Error(), tr)
+				t.Errorf("C02 violated: transcript with frames at the frame limit: %v", err)
+				continue
+			}
+			fs := []Fault{{Kind: "none"}, {Kind: "flip", A: 0, B: 0}, {Kind: "flip", A: len(b.orig) / 2, B: 3}, {Kind: "flip", A: len(b.orig) - 1, B: 7},
+				{Kind: "trunc", A: len(b.orig) - 1}, {Kind: "trunc", A: len(b.orig) / 2}}
+			for i := range b.frames {
+				fs = append(fs, Fault{Kind: "drop", A: i}, Fault{Kind: "dup", A: i}, Fault{Kind: "swap", A: i}, Fault{Kind: "flip", A: offsetOf(b, i), B: 0})
+			}
+			for _, f := range fs {
+				for api := 0; api < 3; api++ {
+					c := Case{T: tr, Faults: []Fault{f}, API: api}
+					v, changed, _ := b.check(c.Faults, api)
+					record(c, changed)
+					if v != "" && bad < 4 {
+						bad++
+						kit.Violation("C02", v, c)
+						t.Errorf("C02 violated: %s", v)
+					}
+				}
+			}
+		}
+	}
+	ev.Exhaustive("4 transcripts with frames at the 1 MiB limit x {stream, typed} x {unedited, end-flag and sample bit flips, truncations, drop/dup/swap of every frame} x 3 receivers")
+}
+
+// offsetOf returns the byte offset of frame i's header in the original stream.
+func offsetOf(b *built, i int) int {
+	off := 0
+	for _, f := range b.frames[:i] {
+		off += len(f)
+	}
+	return off
+}
+
 func TestC02Replay(t *testing.T) {
 	var c Case
 	ok, err := kit.ReplayCase(&c)
